@@ -3,7 +3,8 @@ from pyvc import components, runner
 from harness import components as hc
 
 FUNCS = ['PEPit/point.py::Point.eval', 'PEPit/expression.py::Expression.eval', 'PEPit/constraint.py::Constraint.eval',
-         'PEPit/constraint.py::Constraint.eval_dual', 'PEPit/psd_matrix.py::PSDMatrix.eval_dual', 'PEPit/psd_matrix.py::PSDMatrix.eval']
+         'PEPit/constraint.py::Constraint.eval_dual', 'PEPit/psd_matrix.py::PSDMatrix.eval_dual', 'PEPit/psd_matrix.py::PSDMatrix.eval',
+         'PEPit/pep.py::PEP.solve']          # the mode option (and every other one) reaches the internal solve under its own name
 
 
 def run(run):
